@@ -91,7 +91,7 @@ example : ∀ d ∈ [(⟨.cannedDesign, false, true⟩ : Desc SortType), ⟨.bas
 /-- Sort types that read no table (alphabetical, unicode, suffix, decomposition base, weighted suffix,
 ligature and the private general-type, whitespace, container-partner and notdef passes), in any
 combination: a permutation for EVERY look-up functions and EVERY tables, no hypothesis at all. -/
-theorem sort_perm (env : Env) (T : Tables) (ds : List (Desc SortType)) (names : List Name)
+theorem sort_perm_table_free (env : Env) (T : Tables) (ds : List (Desc SortType)) (names : List Name)
     (hfree : ∀ d ∈ ds, d.type.tableFree = true) : (sortGlyphNames env T ds names).Perm names := by
   apply sortWith_perm
   intro d hd l _
@@ -133,21 +133,27 @@ theorem sort_perm_real (env : Env) (ds : List (Desc SortType)) (names : List Nam
     · exact Or.inr (hblk d hd ht)
     · exact Or.inr (fun n hn => hscr n hn _)
 
-/-- Consequences in the words of the property: same multiplicity of every name, same members, same length. -/
+/-- In the words of the property: every name comes back exactly as many times as it was given. -/
 theorem sort_count (env : Env) (T : Tables) (hT : T.WF) (ds : List (Desc SortType)) (names : List Name)
     (hc : ∀ d ∈ ds, Covered env T d names) (x : Name) :
     (sortGlyphNames env T ds names).count x = names.count x :=
   (sort_perm_partial env T hT ds names hc).count_eq x
 
+/-- … nothing else comes back, nothing is missing. -/
 theorem sort_mem_iff (env : Env) (T : Tables) (hT : T.WF) (ds : List (Desc SortType)) (names : List Name)
     (hc : ∀ d ∈ ds, Covered env T d names) (x : Name) :
     x ∈ sortGlyphNames env T ds names ↔ x ∈ names :=
   (sort_perm_partial env T hT ds names hc).mem_iff
 
+/-- … the result is as long as the input. -/
 theorem sort_length (env : Env) (T : Tables) (hT : T.WF) (ds : List (Desc SortType)) (names : List Name)
     (hc : ∀ d ∈ ds, Covered env T d names) :
     (sortGlyphNames env T ds names).length = names.length :=
   (sort_perm_partial env T hT ds names hc).length_eq
+
+example : (sortGlyphNames demoEnv Gen.SortTables.tables [⟨.cannedDesign, false, true⟩, ⟨.basic .script, true, false⟩]
+    ["parenright", "A", "parenleft", "A"]).count "A" = 2 :=
+  sort_count demoEnv _ tables_wf _ _ (by decide +kernel) "A"
 
 /-! ## 3. Edge cases, loops that cannot fail -/
 
@@ -165,11 +171,16 @@ theorem sort_single (env : Env) (T : Tables) (d : Desc SortType) (a : Name) (nam
     sortGlyphNames env T [d] (a :: names) = (method env T d (a :: names)).flatten := by
   simp [sortGlyphNames, sortWith, descStep, sortRecurse, sortRecurseList, Blk.flattenList, Blk.flatten]
 
+example : sortGlyphNames demoEnv Gen.SortTables.tables [⟨.basic .unicode, false, false⟩] ["A", "a.alt", "parenleft"] =
+    ["a.alt", "A", "parenleft"] := by decide +kernel
+
 /-- `_sortByManualGroups`: the names it removes (`glyphNames.remove`) are there to be removed, and putting
 them back restores the multiset — for any sub-multiset `tail` of the list. -/
 theorem manual_remove_exact (tail names : List Name) (h : SubMultiset tail names) :
     (tail.foldl List.erase names ++ tail).Perm names :=
   foldl_erase_append_perm tail names h
+
+example : SubMultiset ["period", "comma"] ["comma", "A", "period", "period"] := by decide
 
 /-- … and `glyphNames.index(matched[0])` then finds its element. -/
 theorem manual_index_found (names : List Name) (m0 : Name) (tail : List Name)
@@ -199,6 +210,9 @@ the model gives it (the length of the list) is enough, more changes nothing. -/
 theorem partners_fuel_enough (env : Env) (pseudo : Bool) (k : Nat) (names : List Name) :
     partnersLoop env pseudo (names.length + k) names [] = partnersLoop env pseudo names.length names [] :=
   partnersLoop_fuel env pseudo names.length k names [] (Nat.le_refl _)
+
+example : partnersLoop demoEnv true 4 ["A", "parenleft", "A", "parenright"] [] = ["A", "parenleft", "parenright", "A"] := by
+  decide +kernel
 
 /-! ## 4. Findings -/
 
